@@ -28,15 +28,15 @@ pub enum Fam {
 
 pub fn describe(f: Fam, thorough: bool) -> &'static str {
     match (f, thorough) {
-        (Fam::Ebnf, false) => "EBNF(3,2,rules<=3) ∪ EBNF(4,0,rules<=3)",
+        (Fam::Ebnf, false) => "EBNF(3,1,rules<=3) ∪ EBNF(4,0,rules<=2)",
         (Fam::Ebnf, true) => "EBNF(4,1,rules<=3) ∪ EBNF(3,2,rules<=3) ∪ EBNF(5,0,rules<=3)",
-        (Fam::Pratt, false) => "PRATT(branches<=2, 2 operator tokens)",
+        (Fam::Pratt, false) => "PRATT(branches<=2, 2 operator tokens, atoms A and L e R)",
         (Fam::Pratt, true) => "PRATT(branches<=3, 2 operator tokens) ∪ PRATT(branches<=2, 3 operator tokens)",
         (Fam::Node, false) => "NODE(1) on 8 base bodies",
         (Fam::Node, true) => "NODE(2) on 8 base bodies",
-        (Fam::Pred, false) => "PRED: EBNF(2,1,2) ∪ EBNF(3,0,2) with 1 inserted ?1/?t/!1/#1",
+        (Fam::Pred, false) => "PRED: EBNF(2,1,2) with 1 inserted ?1/?t/!1/#1",
         (Fam::Pred, true) => "PRED: EBNF(2,1,2) with <=2, EBNF(3,1,2) with 1 inserted ?1/?t/!1/#1",
-        (Fam::Choice, false) => "CHOICE: one ordered choice in EBNF(3,0,2) with <=1 inserted ~/&/!1, and in EBNF(4,0,2)",
+        (Fam::Choice, false) => "CHOICE: one ordered choice in EBNF(3,0,2) with <=1 inserted ~, and in two-rule EBNF(4,0,2)",
         (Fam::Choice, true) => "CHOICE: one ordered choice in EBNF(3,0,2) with <=2 inserted ~/&/!1, EBNF(4,0,2) with <=1",
         (Fam::Parts, false) => "PARTS: EBNF(3,1,3) with every non-empty subset of non-start rules as parts",
         (Fam::Parts, true) => "PARTS: EBNF(4,1,3) with every non-empty subset of non-start rules as parts",
@@ -46,8 +46,8 @@ pub fn describe(f: Fam, thorough: bool) -> &'static str {
 pub fn family_of(f: Fam, thorough: bool) -> Vec<Grammar> {
     match (f, thorough) {
         (Fam::Ebnf, false) => {
-            let mut v = ebnf_b(3, 2, 3);
-            v.extend(ebnf_b(4, 0, 3));
+            let mut v = ebnf_b(3, 1, 3);
+            v.extend(ebnf_b(4, 0, 2));
             v
         }
         (Fam::Ebnf, true) => {
@@ -62,24 +62,24 @@ pub fn family_of(f: Fam, thorough: bool) -> Vec<Grammar> {
                 pratt_family(3, 2, &mut |g| v.push(g.clone()));
                 pratt_family(2, 3, &mut |g| v.push(g.clone()));
             } else {
-                pratt_family(2, 2, &mut |g| v.push(g.clone()));
+                pratt_family_atoms(2, 2, &[1], &mut |g| v.push(g.clone()));
             }
             v
         }
         (Fam::Node, t) => node_family(if t { 2 } else { 1 }, &node_bases()),
-        (Fam::Pred, false) => {
-            let mut v = pred_family(&ebnf_bound(2, 1, 2, false), 1);
-            v.extend(pred_family(&ebnf_bound(3, 0, 2, false), 1));
-            v
-        }
+        (Fam::Pred, false) => pred_family(&ebnf_bound(2, 1, 2, false), 1),
         (Fam::Pred, true) => {
             let mut v = pred_family(&ebnf_bound(2, 1, 2, false), 2);
             v.extend(pred_family(&ebnf_bound(3, 1, 2, false), 1));
             v
         }
         (Fam::Choice, false) => {
-            let mut v = choice_family(&ebnf_bound(3, 0, 2, false), 1);
-            v.extend(choice_family(&ebnf_bound(4, 0, 2, false), 0));
+            let mut v = choice_family_ops(&ebnf_bound(3, 0, 2, false), 1, &[vmodel::Rx::Commit]);
+            v.extend(
+                choice_family(&ebnf_bound(4, 0, 2, false), 0)
+                    .into_iter()
+                    .filter(|g| g.rules.len() == 2),
+            );
             v
         }
         (Fam::Choice, true) => {
